@@ -699,7 +699,7 @@ func (t *Tree) Compile(file string, args []string, out io.Writer) (err error) {
 			s        *set.Set
 		}, t.RulesCount)
 
-		firstPass := true
+		firstPass, changed := true, false
 		for i := range cache {
 			cache[i].s = set.NewSet()
 		}
@@ -716,6 +716,9 @@ func (t *Tree) Compile(file string, args []string, out io.Writer) (err error) {
 				}
 				cache.reached = true
 				consumes, s = optimizeAlternates(n.Front())
+				if consumes != cache.consumes || !s.Equal(cache.s) {
+					changed = true
+				}
 				cache.consumes = consumes
 				cache.s = s
 			case TypeName:
@@ -855,17 +858,27 @@ func (t *Tree) Compile(file string, args []string, out io.Writer) (err error) {
 			}
 			return consumes, s
 		}
-		for element := range t.Iterator() {
-			if element.GetType() == TypeRule {
-				optimizeAlternates(element)
+		/* repeat the analysis until the first sets of (mutually recursive) rules no longer change */
+		for pass := 0; ; pass++ {
+			changed = false
+			for element := range t.Iterator() {
+				if element.GetType() == TypeRule {
+					optimizeAlternates(element)
+					break
+				}
+			}
+			for i := range cache {
+				cache[i].reached = false
+			}
+			if !changed {
+				firstPass = false
+				break
+			}
+			if pass > t.RulesCount+2 {
+				/* no fixed point: leave every choice ordered */
 				break
 			}
 		}
-
-		for i := range cache {
-			cache[i].reached = false
-		}
-		firstPass = false
 		for element := range t.Iterator() {
 			if element.GetType() == TypeRule {
 				optimizeAlternates(element)
